@@ -21,6 +21,8 @@
       - [rb_same_name]     rollback_handle's query filters parents on Handle.fullname == fullname
       - [rb_valid_only]    ... and on Handle.is_valid.is_(True)        (variant site 1)
       - [cse_checks_valid] _get_cache validates the Handles of a CSE hit before replaying it (variant site 2)
+      - [rb_first_per_name] Scheduler._perform_rollbacks calls rollback_handle only for the first Handle of
+                           each fullname among a job's arguments (the code rolls back every one: false)
     [shipped] is the code as it is in the snapshot, [fixed] the repaired code.
 
     Fuel is explicit: [OutOfFuel] / [DfsOutOfFuel]. *)
@@ -36,8 +38,8 @@ Definition mem_edge (e : hid * hid) (l : list (hid * hid)) : bool := existsb (ed
 
 Record cfg := mkCfg {
   default_valid : bool; adv_chain_upd : bool; adv_child_upd : bool; adv_parent_upd : bool;
-  rb_same_name : bool; rb_valid_only : bool; cse_checks_valid : bool }.
-Definition std_cfg (valid_only cse_checks : bool) : cfg := mkCfg true true true true true valid_only cse_checks.
+  rb_same_name : bool; rb_valid_only : bool; cse_checks_valid : bool; rb_first_per_name : bool }.
+Definition std_cfg (valid_only cse_checks : bool) : cfg := mkCfg true true true true true valid_only cse_checks false.
 Definition shipped : cfg := std_cfg true false.
 Definition fixed : cfg := std_cfg false true.
 
@@ -154,6 +156,21 @@ Fixpoint run_from (c : cfg) (d : db) (hist : list op) : outcome :=
   | o :: r => match step c d o with Done d' => run_from c d' r | OutOfFuel => OutOfFuel end
   end.
 Definition run (c : cfg) (hist : list op) : outcome := run_from c db0 hist.
+
+(* ------------------------------------------------------------------ Scheduler._perform_rollbacks *)
+(** `for value in iter_nested_value((args, kwargs)): if isinstance(value, Handle): rollback_handle(value)`:
+    one rollback per Handle state among the arguments of a job that is about to execute, in the order
+    in which iter_nested_value visits them ([hs]).  With [rb_first_per_name] only the first Handle of
+    each fullname is rolled back (a `seen_names` set). *)
+Fixpoint first_per_name (seen : list N) (hs : list hobj) : list hobj :=
+  match hs with
+  | [] => []
+  | h :: r => if existsb (N.eqb (fst (oid h))) seen then first_per_name seen r
+              else h :: first_per_name (fst (oid h) :: seen) r
+  end.
+Definition arg_rollbacks (c : cfg) (hs : list hobj) : list op :=
+  map Rb (if rb_first_per_name c then first_per_name [] hs else hs).
+Definition perform_rollbacks (c : cfg) (hs : list hobj) (d : db) : outcome := run_from c d (arg_rollbacks c hs).
 
 (* ------------------------------------------------------------------ reference lineage model *)
 (** The specification: a set of valid states and a lineage relation, as predicates.  Advancing
